@@ -439,11 +439,11 @@ def extra_carriers(ctx, rec):
     for fn in ALL_FNS:
         if fn in ("loc", "speed"):
             continue
-        for rep in range(ctx.pick(5, 40)):
+        for rep in range(ctx.pick(40, 300) if fn in ("valid", "gross") else ctx.pick(5, 40)):
             c = g.base(fn)
             if fn == "valid" and c["p"]["kind"] == "time":
                 continue
-            c["x"] = [v if v == gen_qc.NA else 4 * v for v in c["x"]]
+            c["x"] = [v if v == gen_qc.NA else 4 * (v // 2) for v in c["x"]]
             if fn == "press" and any(v == gen_qc.NA for v in c["x"]):
                 continue
             steps = [({"kind": "base", "i": 0, "k": 0}, c)]
